@@ -117,6 +117,61 @@ pub fn inputs(budget: usize, rich: bool) -> (Vec<String>, usize, usize) {
             }
         }
     }
+    // (d) every value token of every sentence replaced by each other value form (variables, objects, lists,
+    // enum-like names, null, floats, out-of-range numbers) — also in positions where only some forms are meant
+    // to appear (directive arguments, default values)
+    let value_forms = ["$ v", "{ a : 1 }", "{ a : $ v }", "[ 1 ]", "[ ]", "RED", "null", "1.5", "-1", "99999999999999999999", "\"é𝄞\"", "\"\"\"b\"\"\"", "true", "{ }"];
+    for s in &sentences {
+        for (i, t) in s.iter().enumerate() {
+            let T::S(tok) = t else { continue };
+            let is_value = matches!(*tok, "true" | "null" | "1" | "-1" | "0" | "\"s\"" | "\"é\"") || (*tok == "v" && i > 0 && s[i - 1] == T::S("$") && s.get(i + 1) != Some(&T::S(":")));
+            if !is_value {
+                continue;
+            }
+            let (lo, hi) = if *tok == "v" { (i - 1, i + 1) } else { (i, i + 1) };
+            let before = isogen::render(&s[..lo].to_vec());
+            let after = isogen::render(&s[hi..].to_vec());
+            for f in value_forms {
+                set.insert(format!("{before}{}{f} {after}", if before.is_empty() || before.ends_with('\n') { "" } else { " " }));
+            }
+        }
+    }
+    // (e) witnesses beyond the token budget (directives with arguments on selections, declarations and
+    // entrypoints; nested values): each with every value token replaced as in (d) and every single token
+    // replaced by each alphabet token
+    let witnesses = [
+        "field Query . foo { foo @ loadable ( lazyLoadArtifact : true ) , }",
+        "field Query . foo { foo ( x : 1 ) @ loadable ( lazyLoadArtifact : true , x : \"s\" ) , }",
+        "field Query . foo { foo @ updatable ( x : 1 ) { foo , } , }",
+        "field Query . foo @ component ( x : 1 ) { foo , }",
+        "entrypoint Query . foo @ lazyLoad ( x : true )",
+        "pointer Query . foo ( $ v : Int = 1 ) to [ Int ! ] @ d ( x : \"s\" ) { foo ( x : { a : { a : 1 } } ) , }",
+    ];
+    let alpha_tokens = isogen::alphabet();
+    for w in witnesses {
+        let toks: Vec<&str> = w.split(' ').collect();
+        set.insert(w.to_string());
+        for i in 0..toks.len() {
+            let is_value = matches!(toks[i], "true" | "1" | "\"s\"");
+            let join = |mid: &str| {
+                let mut v: Vec<&str> = toks[..i].to_vec();
+                if !mid.is_empty() {
+                    v.push(mid);
+                }
+                v.extend_from_slice(&toks[i + 1..]);
+                v.join(" ")
+            };
+            if is_value {
+                for f in value_forms {
+                    set.insert(join(f));
+                }
+            }
+            for a in &alpha_tokens {
+                set.insert(join(a));
+            }
+            set.insert(join(""));
+        }
+    }
     let alpha = isogen::alphabet();
     for p in &prefixes {
         let base = isogen::render(p);
@@ -199,7 +254,7 @@ pub fn main(args: &Args) -> i32 {
     ev.violations = n_new as i64;
     ev.set("evaluations", evals)
         .set("distinct_nontrivial", nontrivial)
-        .set("rule", "distinct texts = grammar sentences up to the token budget + every token prefix of a sentence extended by each alphabet token + every single separator deviation; each parsed with/without export name at two file offsets; non-trivial = accepted, or rejected at token index >= 2")
+        .set("rule", "distinct texts = grammar sentences up to the token budget + every token prefix of a sentence extended by each alphabet token + every single separator deviation + every value token replaced by each of 14 other value forms; each parsed with/without export name at two file offsets; non-trivial = accepted, or rejected at token index >= 2")
         .set("distinct_texts", all.len())
         .set("grammar_sentences", n_sentences + n2)
         .set("token_prefixes", n_prefixes + p2)
